@@ -102,3 +102,197 @@ R.contract(
     ]}},
     locals={"evicted_n": "int", "evicted_b": "int", "target_bytes": "int", "cost_bytes": "int"},
 )
+
+R.contract(
+    LRUBYTES + "get", "C15",
+    types={"self": "LRUBytes", "key": "Un[K]"},
+    requires=[("wf", "wf_lrubytes(self)")],
+    setup=["lemma_pigeonhole(self._q, self._map, key)"],
+    ensures=[
+        ("inv-preserved", "wf_lrubytes(self)"),
+        ("miss", "implies(not old(key in self._map), is_none(result) and seq_eq(self._q, old(self._q)))"),
+        ("hit-value", "implies(old(key in self._map), result == old(self._map)[key][0])"),
+        ("hit-moves-to-mru", "implies(old(key in self._map), moved_to_mru(self._q, old(self._q), key))"),
+        ("map-unchanged", "seq_eq(self._map, old(self._map)) and self._bytes == old(self._bytes) and "
+                          "self.max_entries == old(self.max_entries) and self.max_bytes == old(self.max_bytes)"),
+    ],
+    raises="none",
+)
+
+R.contract(
+    LRUBYTES + "contains", "C15",
+    types={"self": "LRUBytes", "key": "Un[K]"},
+    requires=[("wf", "wf_lrubytes(self)")],
+    ensures=[("value", "result == ((key in self._map) and (self.max_entries > 0 or self.max_bytes > 0))"),
+             ("disabled-false", "implies(self.max_entries == 0 and self.max_bytes == 0, result == False)"),
+             ("pure", "seq_eq(self._map, old(self._map)) and seq_eq(self._q, old(self._q)) and self._bytes == old(self._bytes)")],
+    raises="none",
+)
+
+R.contract(
+    LRUBYTES + "clear", "C15",
+    types={"self": "LRUBytes"},
+    requires=[("wf", "wf_lrubytes(self)")],
+    ensures=[("inv-preserved", "wf_lrubytes(self)"),
+             ("empty", "len(self._map) == 0 and len(self._q) == 0 and self._bytes == 0")],
+    raises="none",
+)
+
+R.contract(
+    LRUBYTES + "size_bytes", "C15",
+    types={"self": "LRUBytes"},
+    requires=[("wf", "wf_lrubytes(self)")],
+    ensures=[("exact-accounting", "result == msum(self._map, 'cost')"),
+             ("within-cap", "implies(self.max_bytes > 0, result <= self.max_bytes)")],
+    raises="none",
+)
+
+R.contract(
+    LRUBYTES + "size_entries", "C15",
+    types={"self": "LRUBytes"},
+    requires=[("wf", "wf_lrubytes(self)")],
+    ensures=[("exact", "result == len(self._map)"),
+             ("within-cap", "implies(self.max_entries > 0, result <= self.max_entries)")],
+    raises="none",
+)
+
+# ------------------------------------------------------------------ DeterministicLRU (lru_det.py)
+R.funtype("OnEvict2", params=["k", "v"], raises="Exception")
+R.optobj("OptOnEvict2", "OnEvict2")
+R.objtype("DetLRU", {"cap": "int", "enabled": "bool", "update_on_get": "bool", "update_on_put": "bool",
+                     "on_evict": "OptOnEvict2", "_q": "Deque[Un[K]]", "_map": "Dict[Un[K], Un[V]]"},
+          cls=("clematis/engine/util/lru_det.py", "DeterministicLRU"))
+DETLRU = "clematis/engine/util/lru_det.py:DeterministicLRU."
+
+R.loops(DETLRU + "_evict_if_needed", {0: {"inv": [
+    "self.cap >= 1 and self.enabled",
+    "len(self._q) == len(self._map)",
+    "forall(i, 0 <= i < len(self._q), self._q[i] in self._map)",
+    "distinct_seq(self._q)",
+    "len(self._map) <= self.cap + 1",
+    "len(pre_loop(self._q)) == len(pre_loop(self._map)) and len(pre_loop(self._map)) <= self.cap + 1 and distinct_seq(pre_loop(self._q))",
+    "len(pre_loop(self._q)) >= 1",
+    "len(self._q) + ite(is_none(evicted), 0, 1) == len(pre_loop(self._q))",
+    "forall(i, 0 <= i < len(self._q), self._q[i] == pre_loop(self._q)[i + ite(is_none(evicted), 0, 1)])",
+    "forall((k, 'Un[K]'), True, (k in self._map) == ((k in pre_loop(self._map)) and (is_none(evicted) or k != pre_loop(self._q)[0])))",
+    "forall((k, 'Un[K]'), k in self._map, self._map[k] == pre_loop(self._map)[k])",
+    "implies(not is_none(evicted), some(evicted)[0] == pre_loop(self._q)[0] and some(evicted)[1] == pre_loop(self._map)[pre_loop(self._q)[0]] "
+    "  and len(pre_loop(self._q)) >= 2 and len(pre_loop(self._map)) > self.cap)",
+]}}, locals={"evicted": "Optional[Tuple[Un[K], Un[V]]]"})
+
+R.contract(
+    DETLRU + "put", "C15",
+    types={"self": "DetLRU", "key": "Un[K]", "value": "Un[V]"},
+    requires=[("wf", "wf_detlru(self)")],
+    setup=["lemma_pigeonhole(self._q, self._map, key)"],
+    ensures=[
+        ("inv-preserved", "wf_detlru(self)"),
+        ("disabled-noop", "implies(not old(self.enabled), is_none(result) and seq_eq(self._map, old(self._map)) and seq_eq(self._q, old(self._q)))"),
+        ("stored", "implies(old(self.enabled), key in self._map and self._map[key] == value)"),
+        ("update-no-evict", "implies(old(self.enabled) and old(key in self._map), is_none(result) and len(self._map) == old(len(self._map)))"),
+        ("update-recency", "implies(old(self.enabled) and old(key in self._map), "
+                           "ite(self.update_on_put, moved_to_mru(self._q, old(self._q), key), seq_eq(self._q, old(self._q))))"),
+        ("insert-evicts-lru-iff-full",
+         "implies(old(self.enabled) and not old(key in self._map), "
+         " is_none(result) == (old(len(self._map)) < self.cap) and "
+         " implies(not is_none(result), some(result)[0] == old(self._q)[0] and some(result)[1] == old(self._map)[old(self._q)[0]]))"),
+        ("others-kept",
+         "implies(old(self.enabled), forall((k, 'Un[K]'), k != key, "
+         "  (k in self._map) == (old(k in self._map) and (is_none(result) or k != old(self._q)[0])) and "
+         "  implies(k in self._map, self._map[k] == old(self._map)[k])))"),
+    ],
+    raises="none",
+)
+
+R.contract(
+    DETLRU + "get", "C15",
+    types={"self": "DetLRU", "key": "Un[K]", "default": "Optional[Un[V]]"},
+    requires=[("wf", "wf_detlru(self)")],
+    setup=["lemma_pigeonhole(self._q, self._map, key)"],
+    ensures=[
+        ("inv-preserved", "wf_detlru(self)"),
+        ("miss-default", "implies(not old(self.enabled) or not old(key in self._map), result == default and seq_eq(self._q, old(self._q)))"),
+        ("hit-value", "implies(old(self.enabled) and old(key in self._map), result == old(self._map)[key])"),
+        ("hit-recency", "implies(old(self.enabled) and old(key in self._map), "
+                        "ite(self.update_on_get, moved_to_mru(self._q, old(self._q), key), seq_eq(self._q, old(self._q))))"),
+        ("map-unchanged", "seq_eq(self._map, old(self._map))"),
+    ],
+    raises="none",
+)
+
+R.contract(
+    DETLRU + "pop_lru", "C15",
+    types={"self": "DetLRU"},
+    requires=[("wf", "wf_detlru(self)")],
+    ensures=[
+        ("inv-preserved", "wf_detlru(self)"),
+        ("empty-none", "implies(not old(self.enabled) or old(len(self._q)) == 0, is_none(result) and seq_eq(self._map, old(self._map)))"),
+        ("pops-lru", "implies(old(self.enabled) and old(len(self._q)) > 0, "
+                     "result[0] == old(self._q)[0] and result[1] == old(self._map)[old(self._q)[0]] and "
+                     "not (old(self._q)[0] in self._map) and len(self._map) == old(len(self._map)) - 1)"),
+    ],
+    raises="none",
+)
+
+# ------------------------------------------------------------------ DedupeRing / ring.DeterministicLRU
+R.objtype("Ring", {"k": "int", "enabled": "bool", "_q": "Deque[str]", "_ref": "Dict[str, int]"},
+          cls=("clematis/engine/util/ring.py", "DedupeRing"))
+RING = "clematis/engine/util/ring.py:DedupeRing."
+R.contract(
+    RING + "add", "C15",
+    types={"self": "Ring", "x": "str"},
+    requires=[("wf", "wf_ring(self)")],
+    ensures=[
+        ("inv-preserved", "wf_ring(self)"),
+        ("capacity", "len(self._q) <= self.k"),
+        ("disabled-noop", "implies(not old(self.enabled), seq_eq(self._q, old(self._q)) and seq_eq(self._ref, old(self._ref)))"),
+        ("appended", "implies(old(self.enabled), len(self._q) >= 1 and self._q[len(self._q) - 1] == x and x in self._ref)"),
+        ("fifo", "implies(old(self.enabled), len(self._q) == ite(old(len(self._q)) >= self.k, self.k, old(len(self._q)) + 1) and "
+                 "forall(i, 0 <= i < len(self._q) - 1, self._q[i] == old(self._q)[i + (old(len(self._q)) + 1 - len(self._q))]))"),
+    ],
+    raises="none",
+    loops={0: {"inv": [
+        "self.k >= 1 and self.enabled",
+        "len(self._q) <= self.k",
+        "forall((y, 'str'), y in self._ref, self._ref[y] > 0)",
+        "len(self._q) <= len(pre_loop(self._q))",
+        "forall(i, 0 <= i < len(self._q), self._q[i] == pre_loop(self._q)[i + (len(pre_loop(self._q)) - len(self._q))])",
+        "implies(len(pre_loop(self._q)) < self.k, len(self._q) == len(pre_loop(self._q)))",
+        "implies(len(pre_loop(self._q)) >= self.k, len(self._q) >= self.k - 1)",
+        "len(pre_loop(self._q)) <= self.k",
+    ]}},
+    locals={"c": "int"},
+)
+R.contract(
+    RING + "discard", "C15",
+    types={"self": "Ring", "x": "str"},
+    requires=[("wf", "wf_ring(self)")],
+    ensures=[("inv-preserved", "wf_ring(self)"),
+             ("queue-untouched", "seq_eq(self._q, old(self._q))"),
+             ("others-untouched", "forall((y, 'str'), y != x, (y in self._ref) == old(y in self._ref) and implies(y in self._ref, self._ref[y] == old(self._ref)[y]))")],
+    raises="none",
+)
+R.contract(
+    RING + "contains", "C15",
+    types={"self": "Ring", "x": "str"},
+    requires=[("wf", "wf_ring(self)")],
+    ensures=[("value", "result == (self.enabled and x in self._ref)"),
+             ("disabled-false", "implies(self.k == 0, result == False)")],
+    raises="none",
+)
+
+R.objtype("RingLRU", {"cap": "int", "enabled": "bool", "_q": "Deque[str]", "_set": "Dict[str, None]"},
+          cls=("clematis/engine/util/ring.py", "DeterministicLRU"))
+_c = R.contracts["clematis/engine/util/lru_det.py:DeterministicLRUSet.add"]
+R.contract(
+    "clematis/engine/util/ring.py:DeterministicLRU.add", "C15",
+    types={"self": "RingLRU", "x": "str"},
+    requires=_c.requires, ensures=_c.ensures, raises="none", loops=LRUSET_ADD_LOOP, locals={"evicted": "bool"},
+)
+R.contract(
+    "clematis/engine/util/lru_det.py:DeterministicLRUSet.contains", "C15",
+    types={"self": "LRUSet", "x": "str"},
+    requires=[("wf", "wf_lruset(self)")],
+    ensures=[("value", "result == (self.enabled and x in self._set)"), ("disabled-false", "implies(self.cap == 0, result == False)")],
+    raises="none",
+)
